@@ -165,3 +165,7 @@ mut("c19-blake2s-tail-copy-overread", "C19", "src/blake2s.rs",
 mut("c19-revert-fix-verify-split-empty", "C19", F,
     "            // An empty list is not a VSS commitment; no share matches it.\n            if vsscomm.is_empty() {\n                return false;\n            }\n\n", "",
     "revert of fix 2f86715 (verify_split on an empty commitment list)")
+mut("c18-revert-fix-modint-split-limb-test", "C18", "src/backend/w64/modint.rs",
+    "            || (d[2] == 0xFFFFFFFFFFFFFFFF && d[3] == 0xFFFFFFFFFFFFFFFF))",
+    "            || (d[2] == 0xFFFFFFFFFFFFFFFF && d[2] == 0xFFFFFFFFFFFFFFFF))",
+    "revert of the split_vartime limb-test fix (d[2] tested twice)")
